@@ -266,6 +266,11 @@ func fundingTx(cbOut wire.OutPoint, cbVal int64, salt int) *wire.MsgTx {
 		if i%5 == 4 {
 			v *= 50
 		}
+		if salt == 5 && i == 11 {
+			// spent alone at height 25 into one OP_TRUE output this gives a priority of
+			// exactly MinHighPriority: 57.6e6 * 20 blocks / (61 - 41) bytes
+			v = 57600000
+		}
 		if i == fundOutputs-1 || v > rest {
 			v = rest
 		}
